@@ -1,23 +1,24 @@
 #!/bin/bash
 # merges the round-2 output /tmp/seed2-<ID>-out (change1, change2) into /tmp/seed-<ID>-out as change3, change4
-ID="$1"; S="/tmp/seed2-$ID-out"; D="/tmp/seed-$ID-out"; mkdir -p "$D"
+ID="$1"; RND="${2:-2}"; OFF=$(( (RND-1)*2 )); S="/tmp/seed$RND-$ID-out"; D="/tmp/seed-$ID-out"; mkdir -p "$D"
 for n in 1 2; do
-  m=$((n+2))
+  m=$((n+OFF))
   [ -f "$S/change$n.diff" ] || continue
   cp "$S/change$n.diff" "$D/change$m.diff"
   rm -rf "$D/demo$m"; cp -r "$S/demo$n" "$D/demo$m"; rm -rf "$D/demo$m/target"
-  sed -i "s#/tmp/seed2-$ID/#/tmp/seed-$ID/#g" "$D/demo$m/Cargo.toml"
+  sed -i "s#/tmp/seed$RND-$ID/#/tmp/seed-$ID/#g" "$D/demo$m/Cargo.toml"
 done
-python3 - "$S/meta.json" "$D/meta.json" <<'PY'
+python3 - "$S/meta.json" "$D/meta.json" "$RND" <<'PY'
 import json, sys
-src, dst = sys.argv[1:3]
+src, dst, rnd = sys.argv[1], sys.argv[2], int(sys.argv[3])
+off = (rnd - 1) * 2
 try: new = json.load(open(src))
 except Exception: new = []
 try: old = json.load(open(dst))
 except Exception: old = []
-old = [m for m in old if int(m.get("change", 0)) <= 2]
+old = [m for m in old if int(m.get("change", 0)) <= off]
 for m in new:
-    m = dict(m); m["change"] = int(m.get("change", 1)) + 2; m["round"] = 2; old.append(m)
+    m = dict(m); m["change"] = int(m.get("change", 1)) + off; m["round"] = rnd; old.append(m)
 json.dump(old, open(dst, "w"), indent=1)
 PY
 ls "$D"
